@@ -367,8 +367,15 @@ def run_job(G, u, gen, bdir, job, tier):
             res['reason'] = 'loop contracts requested but no loop-invariant obligations were generated'
             return res
     other = [p for p in out_props if p['status'] not in ('SUCCESS', 'FAILURE')]
-    if other:
+    real_fail = [p for p in out_props if p['status'] == 'FAILURE' and not p.get('twin')]
+    if other and not real_fail:
         res['reason'] = 'properties with status %s (%s)' % (sorted(set(p['status'] for p in other)), ' | '.join(w for w in warnings if 'memory' in w or 'rror' in w)[:300])
+        return res
+    if real_fail:
+        # decided failures stand even if the solver gave up on other properties afterwards
+        res['props'] = [p for p in out_props if p['status'] in ('SUCCESS', 'FAILURE')]
+        res['undecided_props'] = len(other)
+        res['status'] = 'failed'
         return res
     if not twin_seen and not job.get('no_twin'):
         res['reason'] = 'vacuity twin assertion missing from harness'
@@ -377,12 +384,7 @@ def run_job(G, u, gen, bdir, job, tier):
         res['reason'] = 'vacuous: the function cannot return under its precondition (twin assertion did not fail)'
         res['status'] = 'vacuous'
         return res
-    failed = [p for p in out_props if p['status'] == 'FAILURE' and not p.get('twin')]
-    other = [p for p in out_props if p['status'] not in ('SUCCESS', 'FAILURE')]
-    if other:
-        res['reason'] = 'properties with status %s' % sorted(set(p['status'] for p in other))
-        return res
-    res['status'] = 'failed' if failed else 'passed'
+    res['status'] = 'passed'
     return res
 
 
@@ -466,7 +468,7 @@ def main():
                 if j.get('tier') == 'thorough' and tier != 'thorough':
                     continue
                 work.append((G, u, gen, gb, j))
-        with ThreadPoolExecutor(max_workers=int(os.environ.get('VERIF_JOBS', '14'))) as ex:
+        with ThreadPoolExecutor(max_workers=int(os.environ.get('VERIF_JOBS', '16'))) as ex:
             futs = [ex.submit(run_job, G, u, gen, gb, j, tier) for (G, u, gen, gb, j) in work]
             for f, w in zip(futs, work):
                 try:
